@@ -51,7 +51,13 @@ class StmtsMixin:
             if m is None:
                 raise Unsupported(f"stmt {type(s).__name__} line {s.lineno}")
             res = m(s, s0, d)
-            gh = self.ghost_after.get(ast.unparse(s).split("\n")[0]) if getattr(self, "ghost_after", None) else None
+            gh = None
+            if getattr(self, "ghost_after", None):
+                gh = self.ghost_after.get(ast.unparse(s).split("\n")[0])
+                if gh is None and isinstance(s, (ast.Assign, ast.AnnAssign)):
+                    tg = s.targets[0] if isinstance(s, ast.Assign) else s.target
+                    if isinstance(tg, ast.Name):
+                        gh = self.ghost_after.get("assign:" + tg.id)
             if gh is not None:
                 for s1, kind, val in res:
                     if kind == "fall":
